@@ -525,8 +525,10 @@ func (g *Gen) smtFile(o *Obligation) string {
 		sort.Strings(ls)
 		b.WriteString("(assert (distinct " + strings.Join(ls, " ") + "))\n")
 	}
-	for _, a := range g.axioms {
-		b.WriteString("(assert " + a + ")\n")
+	if !o.ExpectSat {
+		for _, a := range g.axioms {
+			b.WriteString("(assert " + a + ")\n")
+		}
 	}
 	for i := 0; i < o.NAsserts && i < len(g.asserts); i++ {
 		b.WriteString("(assert " + g.asserts[i] + ")\n")
